@@ -388,6 +388,18 @@ class FrontEnd:
         from ..absint import Recorder
 
         h = Recorder("print") if j.get("handler") else None
+        if j.get("handler") == "falsy":
+
+            class FalsyRecorder(Recorder):
+                """a callable whose truth value is False (like a callable collection that is still empty)"""
+
+                def __bool__(self) -> bool:
+                    return False
+
+                def __len__(self) -> int:
+                    return 0
+
+            h = FalsyRecorder("print")
         entry = j.get("entry", "read_namespace")
         if entry == "read_namespace":
             args: List[Any] = [APath(j["root"]), [APath(x) for x in j.get("lookup", [])]]
